@@ -358,7 +358,10 @@ class PyvalColorizer:
             # is not relevant to annotations.
             self._output(str(pyval), self.CONST_TAG, state, link=True)
         elif pyvaltype is int or pyvaltype is float or pyvaltype is complex:
-            self._output(str(pyval), self.NUMBER_TAG, state)
+            # 'inf' and 'nan' are not literals: show what the source must have looked like (as ast.unparse does).
+            infstr = '1e%d' % (sys.float_info.max_10_exp + 1)
+            self._output(str(pyval).replace('inf', infstr).replace('nan', f'({infstr}-{infstr})'), 
+                         self.NUMBER_TAG, state)
         elif pyvaltype is str:
             self._colorize_str(pyval, state, '', escape_fcn=_str_escape)
         elif pyvaltype is bytes:
